@@ -456,7 +456,56 @@ def r_makespan_is_the_horizon(ctx):
     task_rules.r_horizon(ctx)
 
 
-C07_RULES = [r_direction, r_improve_loop, r_weighted, r_opt_wiring, r_objective_handed, r_makespan_is_the_horizon]
+def r_objective_is_a_function_of_the_schedule(ctx):
+    """'no worse than any schedule found before' compares schedules by the value of the objective variable: that variable has to
+    be *defined* by the schedule (sum, maximum, count ... as an equality), not merely bounded by it, or an improvement step can
+    consume slack of the variable without improving the schedule, and the value reported for an early stop is not the value the
+    returned schedule attains - the definitions of the built-in objectives and of the max/min helpers (R-IND-DEF, R-MINMAX;
+    shared with C08)"""
+    from rules import indicators
+    indicators.r_objective_indicators(ctx)
+    indicators.r_minmax(ctx)
+
+
+def r_bound_provenance(ctx):
+    """the incremental optimiser takes `value == bound` as a proof of optimality, the built-in optimiser ignores the bound: the
+    two agree only if the bound holds in every valid schedule.  The bound is `Indicator.bounds`, copied by Objective.__init__
+    into `_bounds`: its only writers may be the caller (constructor argument), an indicator's own constructor (from its own
+    definition) and Objective.__init__ - a constraint, which can be optional or an operand of a logical combination, is no
+    proof"""
+    proj = ctx.project
+    n = 0
+    for m in proj.modules.values():
+        for cnode in [x for x in ast.walk(m.tree) if isinstance(x, ast.ClassDef)] + [None]:
+            fns = [f for f in (cnode.body if cnode else m.tree.body) if isinstance(f, ast.FunctionDef)]
+            for fn in fns:
+                for node in ast.walk(fn):
+                    tgt = None
+                    if isinstance(node, ast.Attribute) and isinstance(node.ctx, ast.Store) and node.attr in ("bounds", "_bounds"):
+                        tgt = (ast.unparse(node.value), node.attr)
+                    elif isinstance(node, ast.Call) and ast.unparse(node.func) in ("setattr", "object.__setattr__") and len(node.args) >= 2 \
+                            and isinstance(node.args[1], ast.Constant) and node.args[1].value in ("bounds", "_bounds"):
+                        tgt = (ast.unparse(node.args[0]), node.args[1].value)
+                    if tgt is None:
+                        continue
+                    n += 1
+                    where = f"{cnode.name + '.' if cnode else m.short + '.'}{fn.name}"
+                    c = proj.classes.get(cnode.name) if cnode else None
+                    own = tgt[0] == "self" and fn.name == "__init__" and c is not None and \
+                        ((tgt[1] == "bounds" and c.is_subclass_of("Indicator")) or (tgt[1] == "_bounds" and c.name == "Objective"))
+                    if own:
+                        ctx.ok("R-BOUND-PROVENANCE", f"{where}: `{tgt[0]}.{tgt[1]}` written by its owner's constructor")
+                    else:
+                        ctx.violation("R-BOUND-PROVENANCE", where, f"writes `{tgt[1]}` of another object",
+                                      f"`{tgt[0]}.{tgt[1]}` is assigned in {where}: the incremental optimiser stops with 'optimum found' "
+                                      f"as soon as the objective reaches that bound, so a bound that does not hold in every valid "
+                                      f"schedule (a constraint may be optional, or an operand of Or / Implies) makes it return a "
+                                      f"non-optimal value that z3.Optimize does not", f"{proj.relpath(m.path)}:{node.lineno}")
+    ctx.floor("R-BOUND-PROVENANCE", "writers of Indicator.bounds / Objective._bounds", n, 3)
+
+
+C07_RULES = [r_direction, r_improve_loop, r_weighted, r_opt_wiring, r_objective_handed, r_makespan_is_the_horizon,
+             r_objective_is_a_function_of_the_schedule, r_bound_provenance]
 
 
 # ---------------------------------------------------------------------------
@@ -569,8 +618,16 @@ def r_every_timing_admitted(ctx):
     completeness.r_stream_exact(ctx)
 
 
+def r_enumerated_are_valid(ctx):
+    """'each request returns a valid schedule ... visits every distinct valid timing exactly once': the enumeration walks the
+    models of the asserted system, so it returns only valid timings (and as many as there are) exactly when every task's own
+    obligations - start >= 0, end = start + duration, the declared duration bounds and allowed values - are asserted on every
+    parameter combination (R-TASK-OBLIG, shared with C01)"""
+    task_rules.r_task_oblig(ctx)
+
+
 C12_RULES = [r_block_clause, r_chained_cmp, lambda ctx: r_scoped_assert(ctx), lambda ctx: r_push_pop(ctx), r_unique_unscheduled,
-             lambda ctx: r_check_fresh(ctx), r_every_timing_admitted]
+             lambda ctx: r_check_fresh(ctx), r_every_timing_admitted, r_enumerated_are_valid]
 
 
 # ---------------------------------------------------------------------------
@@ -668,6 +725,12 @@ def r_init_once(ctx):
         calls = g.find(lambda x: C.has_call(x, "self.initialize"))
         for cnode in calls:
             n += 1
+            if name in ("__init__", "model_post_init", "__post_init__"):
+                ctx.violation("R-INIT-ONCE", f"SchedulingSolver.{name}", "initialize() called from the constructor",
+                              f"`{cnode.src()}` builds the constraint system when the solver object is created: whatever is declared "
+                              f"(tasks, constraints, objectives) between the construction of the solver and the first solve() is never "
+                              f"asserted, and the schedule returned ignores it", srcline(cnode))
+                continue
             # dominated by the T edge of `not self._initialized`
             def guard(nd):
                 return nd.kind == "test" and ast.unparse(nd.ast.test).replace(" ", "") in ("notself._initialized", "self._initializedisFalse",
@@ -1023,7 +1086,8 @@ def r_option_table(ctx):
 
 
 # the two optimisers can only agree on the optimum if the incremental loop's direction table and typestate hold
-C15_RULES = [r_option_noninterference, r_option_table, r_opt_wiring, r_direction, r_improve_loop, r_weighted, r_objective_handed]
+C15_RULES = [r_option_noninterference, r_option_table, r_opt_wiring, r_direction, r_improve_loop, r_weighted, r_objective_handed,
+             r_bound_provenance]
 
 
 def _core_reader(ctx):
